@@ -85,6 +85,13 @@ leaf!(O, Option<u32>, |v| if v % 2 == 1 { Some(v) } else { None }, |i| Some(i.un
 leaf!(Z, (), |_| (), |_| Some(0), |_| 0);
 
 leaf!(R, Result<u32, String>, |v| if v % 2 == 0 { Ok(v) } else { Err(strv(v)) }, |i| match i { Ok(x) => Some(*x), Err(s) => s.parse().ok() }, |v| if v % 2 == 0 { 4 } else { 7 });
+leaf!(
+    ARR,
+    [Option<u32>; 3],
+    |v| if v % 3 == 0 { [None, Some(v), Some(v)] } else { [Some(v), None, Some(v)] },
+    |i| i.iter().flatten().next().copied().filter(|x| i.iter().flatten().all(|y| y == x)),
+    |_| 8
+);
 leaf!(BX, Box<u32>, |v| Box::new(v), |i| Some(**i), |_| 4);
 leaf!(TUP, (u32, String, u8), |v| (v, strv(v), v as u8), |i| (i.1.parse::<u32>().ok() == Some(i.0)).then_some(i.0), |_| 4 + 7 + 1);
 
@@ -357,6 +364,7 @@ fn types() -> Vec<TyOps> {
         ops_clonable::<T3>("T3 derived tuple struct", |v| v),
         ops_clonable::<Gn<D>>("Gn<D> derived generic struct", |v| v),
         ops_clonable::<E4>("E4 derived enum, 4 variants", |v| if v % 4 == 0 { 0 } else { v }),
+        ops_clonable::<ARR>("ARR([Option<u32>;3])", |v| v),
     ]
 }
 
@@ -585,8 +593,8 @@ impl Property for C16 {
     }
     fn rule(&self, tier: Tier) -> String {
         format!(
-            "every history of exactly {} operations over all 19 body types (78 ops) and of exactly {} operations over 9 core types (38 ops) (every shorter history is a checked prefix), on a stack of messages, ops = {{set_content(T), try_cast<T>, try_content<T>, can_cast<T> per type, try_clone, drop}}; \
-             types: u32 / i32 / f32 / [u8;4] / derived newtype (layout twins), String, Vec<u8>, Option<u32>, (), derived struct, derived enum (unit/tuple/named variants), nested derived struct, a non-Clone type, Result, Box, tuple, derived tuple struct with 3 fields, derived generic struct, derived enum with 4 variants; \
+            "every history of exactly {} operations over all 20 body types (82 ops) and of exactly {} operations over 9 core types (38 ops) (every shorter history is a checked prefix), on a stack of messages, ops = {{set_content(T), try_cast<T>, try_content<T>, can_cast<T> per type, try_clone, drop}}; \
+             types: u32 / i32 / f32 / [u8;4] / derived newtype (layout twins), String, Vec<u8>, Option<u32>, (), derived struct, derived enum (unit/tuple/named variants), nested derived struct, a non-Clone type, Result, Box, tuple, derived tuple struct with 3 fields, derived generic struct, derived enum with 4 variants, an array of options with unequal element lengths; \
              oracle: typed-value model (cast/borrow succeeds iff same type and yields the stored value; failure returns the message intact), live-object counter after every op and after dropping everything, \
              length() == 64 + independently computed byte length; plus one 2-module simulation per type checking arrival time == length*8/bitrate; \
              non-trivial = history containing a failed cast between layout twins, a cast after a clone, or a refused clone",
